@@ -3,12 +3,21 @@ import OasisModel.NodeDB.Spec
 import OasisModel.NodeDB.Badger
 import OasisModel.NodeDB.Crash
 import OasisModel.NodeDB.Pruner
+import OasisModel.NodeDB.PathBadger
 /-
 Driver of the node-database models (properties C06 / C07), executable `om_nodedb`.
 The first input line selects the sub-mode:
 
   mode spec      the abstract contract `Spec` as a checker with witness (dbdrv)
   mode badger    the bookkeeping model `Badger` of the badger backend as an exact oracle (dbdrv)
+
+### mode pathbadger — the REAL pathbadger backend, node level (dbdrv)
+  commit <t> <v> <sv> <sh> <h> <res> <root h/kids|-> <puts ver.idx=h/kids,..|-> <removed ver.idx,..|->
+        kids: `ver.idx~hash;..`  (key and hash of each child pointer, as `ptrToDb` stores them)
+  finalize <v> <chosen t:h,..|-> <res>;  prune <v> <res>;  obs / has as in mode badger
+  readclass <v> <t> <h> <ok|notfound|foreign>   full read-back of a root the DB claims to have
+The model (`PathBadger`) must predict every result (including the backend-specific refusals,
+`restricted`), every observer and the outcome of every read-back.
 
 ### mode pruner — the REAL abci genericPruner over a scripted node database (dbdrv)
   new
@@ -417,6 +426,121 @@ def crashStep (line : String) : String :=
   | [] => "ok"
   | _ => "DIVERGE bad-op"
 
+/-! ### mode pathbadger -/
+
+def parseKey (s : String) : Option PathBadger.Key :=
+  match s.splitOn "." with
+  | [a, b] => do pure ((← a.toNat?), (← b.toNat?))
+  | _ => none
+
+def parseKids (s : String) : Option (List (PathBadger.Key × Nat)) :=
+  if s == "" then some [] else
+  (s.splitOn ";").mapM fun e =>
+    match e.splitOn "~" with
+    | [k, h] => do pure ((← parseKey k), (← h.toNat?))
+    | _ => none
+
+def parseVal (s : String) : Option PathBadger.NodeVal :=
+  match s.splitOn "/" with
+  | [h, ks] => do pure { hash := (← h.toNat?), kids := (← parseKids ks) }
+  | _ => none
+
+def parsePuts (s : String) : Option (List (PathBadger.Key × PathBadger.NodeVal)) :=
+  if s == "-" then some [] else
+  (s.splitOn ",").mapM fun e =>
+    match e.splitOn "=" with
+    | [k, v] => do pure ((← parseKey k), (← parseVal v))
+    | _ => none
+
+def parseKeys (s : String) : Option (List PathBadger.Key) :=
+  if s == "-" then some [] else (s.splitOn ",").mapM parseKey
+
+def resStr : PathBadger.Res → String
+  | .ok => "ok"
+  | .err e => e.toString
+  | .restricted => "restricted"
+
+structure PSt where
+  s : PathBadger.St := PathBadger.init
+  dead : Bool := false
+
+def pathStep (st : PSt) (line : String) : PSt × String :=
+  if st.dead then (st, "skip") else
+  let fail (msg : String) : PSt × String := ({ st with dead := true }, "DIVERGE " ++ msg)
+  let s := st.s
+  match words line with
+  | ["commit", t, v, sv, sh, h, res, root, puts, removed] =>
+    match t.toNat?, v.toNat?, sv.toNat?, sh.toNat?, h.toNat?, parsePuts puts, parseKeys removed with
+    | some t, some v, some sv, some sh, some h, some puts, some removed =>
+      let old : Root := { ver := sv, typ := t, hash := sh }
+      let new : Root := { ver := v, typ := t, hash := h }
+      if res == "src_unreadable" then
+        if sh != 0 && PathBadger.hasRoot s old && PathBadger.read s old == .ok then
+          fail s!"src-unreadable-mismatch model can read source {showRoot old}"
+        else (st, "ok")
+      else
+      let rootV := if root == "-" then some none else (parseVal root).map some
+      match rootV with
+      | none => fail "bad-op"
+      | some rootV =>
+        let b : PathBadger.Batch := { puts := puts, removed := removed, root := rootV }
+        let (r, s') := PathBadger.commit s old new b
+        if resStr r != res then fail s!"commit-result-mismatch impl={res} model={resStr r}"
+        -- the hypotheses of the theorems about what a tree hands to a batch, on the real tree
+        -- (only for commits that create a root; the driver keeps sources finalized)
+        else if res == "ok" && (PathBadger.rootVal s v (t, h)).isNone && !PathBadger.batchOK s old new b then
+          fail s!"commit-hyp batch of {showRoot new} from {showRoot old} violates batchOK"
+        else ({ st with s := s' }, "ok")
+    | _, _, _, _, _, _, _ => fail "bad-op"
+  | ["finalize", v, chosen, res] =>
+    match v.toNat? with
+    | none => fail "bad-op"
+    | some v =>
+    match parseTHs v chosen with
+    | none => fail "bad-op"
+    | some chosen =>
+      let (r, s') := PathBadger.finalize s v chosen
+      if resStr r == res then ({ st with s := s' }, "ok")
+      else fail s!"finalize-result-mismatch impl={res} model={resStr r}"
+  | ["prune", v, res] =>
+    match v.toNat? with
+    | none => fail "bad-op"
+    | some v =>
+      let (r, s') := PathBadger.prune s v
+      if resStr r == res then ({ st with s := s' }, "ok")
+      else fail s!"prune-result-mismatch impl={res} model={resStr r}"
+  | ["reopen"] => (st, "ok")
+  | ["obs", latest, earliest, roots] =>
+    match earliest.toNat?, parseVTHs roots with
+    | some e, some roots =>
+      let lat := match s.last with | some l => toString l | none => "-"
+      if lat != latest then fail s!"latest-mismatch impl={latest} model={lat}"
+      else if e != s.earliest then fail s!"earliest-mismatch impl={e} model={s.earliest}"
+      else
+        let maxv := roots.foldl (fun m r => max m r.ver) 0
+        let want := sortRoots ((List.range (maxv + 3)).flatMap (PathBadger.rootsFor s))
+        let got := sortRoots roots
+        if got != want then fail s!"roots-mismatch impl={got.map showRoot} model={want.map showRoot}"
+        else (st, "ok")
+    | _, _ => fail "bad-op"
+  | ["has", v, t, h, b] =>
+    match v.toNat?, t.toNat?, h.toNat? with
+    | some v, some t, some h =>
+      let r : Root := { ver := v, typ := t, hash := h }
+      if PathBadger.hasRoot s r == (b == "1") then (st, "ok")
+      else fail s!"hasroot-mismatch HasRoot({showRoot r}) impl={b} model={PathBadger.hasRoot s r}"
+    | _, _, _ => fail "bad-op"
+  | ["readclass", v, t, h, c] =>
+    match v.toNat?, t.toNat?, h.toNat? with
+    | some v, some t, some h =>
+      let r : Root := { ver := v, typ := t, hash := h }
+      let want := match PathBadger.read s r with | .ok => "ok" | .notFound => "notfound" | .foreign => "foreign"
+      if want == c then (st, "ok")
+      else fail s!"read-mismatch root {showRoot r} impl={c} model={want}"
+    | _, _, _ => fail "bad-op"
+  | [] => (st, "ok")
+  | _ => fail "bad-op"
+
 /-! ### mode pruner -/
 
 def prunerStep (p : Pruner.PSt) (line : String) : Pruner.PSt × String :=
@@ -447,6 +571,7 @@ inductive Mode where
   | badger (st : BSt)
   | crash
   | pruner (p : Pruner.PSt)
+  | pathbadger (st : PSt)
 
 def step (m : Mode) (line : String) : Mode × String :=
   match m with
@@ -455,12 +580,14 @@ def step (m : Mode) (line : String) : Mode × String :=
     | ["mode", "spec"] => (.spec {}, "ok")
     | ["mode", "badger"] => (.badger {}, "ok")
     | ["mode", "crash"] => (.crash, "ok")
+    | ["mode", "pathbadger"] => (.pathbadger {}, "ok")
     | ["mode", "pruner"] => (.pruner { earliest := 0, lastRetained := 0 }, "ok")
     | _ => (.unset, "DIVERGE bad-mode")
   | .spec st => let (st', out) := specStep st line; (.spec st', out)
   | .badger st => let (st', out) := badgerStep st line; (.badger st', out)
   | .crash => (.crash, crashStep line)
   | .pruner p => let (p', out) := prunerStep p line; (.pruner p', out)
+  | .pathbadger st => let (st', out) := pathStep st line; (.pathbadger st', out)
 
 def main : IO Unit := loop step .unset
 
